@@ -775,7 +775,7 @@ fn sl_eval(cfg: &SlCfg, hist: &[SlOp]) -> EvalOut {
         }
         match caught(|| s.apply(*op)) {
             Err(m) => {
-                if last {
+                if last && !m.starts_with("[harness]") {
                     out.findings.push(Finding::new("C05", "no_panic", format!("SampledLFU:{}", crate::panics::location_of(&m)), format!("{:?} panicked after {:?}: {}", op, &hist[..i], m)));
                     // every running total of this history is representable (checked above): the accounting has no
                     // outcome "panic"
@@ -804,8 +804,9 @@ fn sl_eval(cfg: &SlCfg, hist: &[SlOp]) -> EvalOut {
                 continue; // the exact answer itself is not representable
             }
             let got = s.room_left(c);
-            if got != max - total - c {
-                f.push(Finding::new("C20", "room_left_is_exact", disc.clone(), format!("room_left({}) = {} but max_cost {} minus recorded costs {} minus {} is {}, after {:?}", c, got, max, total, c, max - total - c, hist)));
+            let want = (max as i128 - total as i128 - c as i128) as i64;
+            if got != want {
+                f.push(Finding::new("C20", "room_left_is_exact", disc.clone(), format!("room_left({}) = {} but max_cost {} minus recorded costs {} minus {} is {}, after {:?}", c, got, max, total, c, want, hist)));
                 break;
             }
         }
@@ -834,6 +835,7 @@ fn sl_eval(cfg: &SlCfg, hist: &[SlOp]) -> EvalOut {
     });
     match checks {
         Ok(f) => out.findings.extend(f),
+        Err(m) if m.starts_with("[harness]") => return out,
         Err(m) => {
             out.findings.push(Finding::new("C05", "no_panic", format!("SampledLFU:{}", crate::panics::location_of(&m)), format!("a query panicked after {:?}: {}", hist, m)));
             // room_left is only asked where its exact answer is representable, and fill_sample has no outcome "panic"
